@@ -309,7 +309,7 @@ func genStr(r *vlib.Rand, max int) string {
 	case 18, 19:
 		s = exactBytes(r, r.Range(1000, 5000))
 	default:
-		if max >= 65536 {
+		if max >= 65536 && r.Chance(1, 3) {
 			s = exactBytes(r, bigLens[r.Intn(len(bigLens))])
 		} else {
 			s = exactBytes(r, r.Range(300, 1500))
@@ -410,16 +410,16 @@ func jsonString(s string, esc int) string {
 		all := esc == 1 || (esc == 2 && idx%2 == 1)
 		switch {
 		case all:
-			f := "\\u%04x"
+			digits := hexLower
 			if c&1 == 1 {
-				f = "\\u%04X"
+				digits = hexUpper
 			}
 			if c >= 0x10000 {
 				v := c - 0x10000
-				fmt.Fprintf(&b, f, 0xd800+(v>>10))
-				fmt.Fprintf(&b, f, 0xdc00+(v&0x3ff))
+				writeU(&b, digits, 0xd800+(v>>10))
+				writeU(&b, digits, 0xdc00+(v&0x3ff))
 			} else {
-				fmt.Fprintf(&b, f, c)
+				writeU(&b, digits, c)
 			}
 		case c == '"':
 			b.WriteString(`\"`)
@@ -438,13 +438,21 @@ func jsonString(s string, esc int) string {
 		case c == '/' && esc == 2:
 			b.WriteString(`\/`)
 		case c < 0x20:
-			fmt.Fprintf(&b, "\\u%04x", c)
+			writeU(&b, hexLower, c)
 		default:
 			b.WriteRune(c)
 		}
 	}
 	b.WriteByte('"')
 	return b.String()
+}
+
+func writeU(b *strings.Builder, digits string, c rune) {
+	b.WriteString("\\u")
+	b.WriteByte(digits[(c>>12)&15])
+	b.WriteByte(digits[(c>>8)&15])
+	b.WriteByte(digits[(c>>4)&15])
+	b.WriteByte(digits[c&15])
 }
 
 type kv struct{ k, raw string }
@@ -482,6 +490,7 @@ type field struct {
 	raw    string
 	n      int
 	forbid string // set when raw is forbidden by construction (e.g. Version: 2)
+	enc    string // cached JSON text of s (the escape style of a message never changes)
 }
 
 func (f *field) missing() bool {
@@ -523,16 +532,20 @@ func (m *hand) clone() *hand {
 
 func (m *hand) bytes() []byte {
 	var kvs []kv
-	for i, f := range m.f {
+	for i := range m.f {
+		f := &m.f[i]
 		switch f.k {
 		case fNull:
 			kvs = append(kvs, kv{f.name, "null"})
 		case fStr:
-			esc := m.esc
-			if len(f.s) > 4096 {
-				esc = 0
+			if f.enc == "" {
+				esc := m.esc
+				if len(f.s) > 4096 {
+					esc = 0
+				}
+				f.enc = jsonString(f.s, esc)
 			}
-			kvs = append(kvs, kv{f.name, jsonString(f.s, esc)})
+			kvs = append(kvs, kv{f.name, f.enc})
 		case fNum, fRaw:
 			kvs = append(kvs, kv{f.name, f.raw})
 		}
